@@ -333,7 +333,52 @@ def _unlimit_stack():
         pass
 
 
-def run_lines(exe, lines, full=False, timeout=1200, extra_env=None, mem_gb=24):
+
+def _communicate_stall(p, data, timeout, stall):
+    """communicate() that also gives up when the process prints no further complete line for `stall` seconds
+    (both runners flush one line per case): returns (stdout, stderr, "ok" | "timeout" | "stall")"""
+    import threading
+    bufs = {"o": [], "e": []}
+    last = [time.time(), 0]
+
+    def rd(f, key):
+        while True:
+            b = f.read1(1 << 16) if hasattr(f, "read1") else f.read(1 << 16)
+            if not b:
+                break
+            bufs[key].append(b)
+            if key == "o" and b"\n" in b:
+                last[0] = time.time()
+
+    def wr():
+        try:
+            p.stdin.write(data)
+            p.stdin.close()
+        except Exception:
+            pass
+    ts = [threading.Thread(target=rd, args=(p.stdout, "o"), daemon=True), threading.Thread(target=rd, args=(p.stderr, "e"), daemon=True),
+          threading.Thread(target=wr, daemon=True)]
+    for t in ts:
+        t.start()
+    t0 = time.time()
+    status = "ok"
+    while p.poll() is None:
+        time.sleep(0.05)
+        now = time.time()
+        if now - t0 > timeout:
+            status = "timeout"
+        elif stall and now - last[0] > stall:
+            status = "stall"
+        if status != "ok":
+            p.kill()
+            p.wait()
+            break
+    for t in ts[:2]:
+        t.join(5)
+    return b"".join(bufs["o"]), b"".join(bufs["e"]), status
+
+
+def run_lines(exe, lines, full=False, timeout=1200, extra_env=None, mem_gb=24, stall=120):
     """Feed all lines to one process.  If it dies (a goroutine panic, stack
     exhaustion) the case it died on is reported as crash@..., and a new process
     continues with the next line.  Returns list of output lines."""
@@ -346,6 +391,7 @@ def run_lines(exe, lines, full=False, timeout=1200, extra_env=None, mem_gb=24):
     start = 0
     n = len(lines)
     restarts = 0
+    hangs = 0
     timed_out_at = None
     while start < n:
         data = "\n".join(lines[start:]) + "\n"
@@ -358,11 +404,8 @@ def run_lines(exe, lines, full=False, timeout=1200, extra_env=None, mem_gb=24):
                 pass
         p = subprocess.Popen([exe], stdin=subprocess.PIPE, stdout=subprocess.PIPE, stderr=subprocess.PIPE,
                              env=env, preexec_fn=_unlimit_stack)
-        try:
-            so, se = p.communicate(data.encode(), timeout=timeout)
-        except subprocess.TimeoutExpired:
-            p.kill()
-            so, se = p.communicate()
+        so, se, status = _communicate_stall(p, data.encode(), timeout, stall)
+        if status != "ok":
             text = so.decode(errors="replace")
             got = text.split("\n")
             # the last element is an incomplete line (or empty): never compare a cut-off line
@@ -370,7 +413,16 @@ def run_lines(exe, lines, full=False, timeout=1200, extra_env=None, mem_gb=24):
             got = [g for g in got if not re.match(r"^\d{4}/\d\d/\d\d ", g)]
             outs.extend(got)
             restarts += 1
-            if got:
+            if status == "stall":
+                # no case finished for `stall` seconds: the case the process sits on hangs (or is far beyond any
+                # sensible cost); it is reported and the run goes on behind it
+                outs.append("timeout")
+                hangs += 1
+                if hangs > 3:
+                    while len(outs) < n:
+                        outs.append("not-run")
+                    break
+            elif got:
                 # the batch as a whole ran out of time: go on with the case it stopped at
                 timed_out_at = None
             else:
@@ -591,9 +643,9 @@ def generic_diff(mod, ctx, cases, cov, violations, known_hits, notes):
     lines = [c.line for c in cases]
     full = getattr(mod, "FULL_OUTPUT", True)
     t1 = time.time()
-    impl = run_lines(ctx["probe"], lines, full=full, timeout=getattr(mod, "TIMEOUT", 1200))
+    impl = run_lines(ctx["probe"], lines, full=full, timeout=getattr(mod, "TIMEOUT", 1200), stall=getattr(mod, "STALL", 120))
     t2 = time.time()
-    model = run_lines(ctx["model"], lines, full=full, timeout=getattr(mod, "TIMEOUT", 1200))
+    model = run_lines(ctx["model"], lines, full=full, timeout=getattr(mod, "TIMEOUT", 1200), stall=getattr(mod, "STALL", 120))
     t3 = time.time()
     cov["impl_s"] = round(t2 - t1, 2)
     cov["model_s"] = round(t3 - t2, 2)
